@@ -13,16 +13,17 @@
 (* without an earlier "copy" is the error path (Fail).  The logged buffer   *)
 (* length binds the model's buffer content (PoolClean).                     *)
 (*                                                                         *)
-(* Result events - every operation of the program is run alone (Seq) and on *)
-(* many goroutines on its own values (Par, ordered per goroutine by a       *)
-(* sequence number); End carries the race detector's report count.          *)
+(* Result events - every operation of the program is run alone and on many *)
+(* goroutines on its own values; a Par event carries both results (ordered  *)
+(* per goroutine by a sequence number); End carries the race detector's     *)
+(* report count.                                                            *)
 (* "Fresh" programs run in a process of their own with the goroutines first *)
 (* and the reference afterwards, so that first-use initialisation inside    *)
 (* the library happens concurrently.                                        *)
 EXTENDS Conc, Json, IOUtils
 
-VARIABLES l, dead, nviol, seqres, lastseq, bmap
-tvars == <<l, dead, nviol, seqres, lastseq, bmap>>
+VARIABLES l, dead, nviol, lastseq, bmap
+tvars == <<l, dead, nviol, lastseq, bmap>>
 Trace == ndJsonDeserialize(IOEnv.VERIF_TRACE)
 Empty == [x \in {} |-> 0]
 
@@ -34,12 +35,12 @@ TraceG == 1..MaxW
 CInit ==
   /\ pool = {} /\ buf = [b \in {} |-> <<>>] /\ nextBuf = 1 /\ table = "ready"
   /\ gs = [g \in G |-> [pc |-> "get", k |-> 1, b |-> 0, res |-> <<>>, blind |-> FALSE, copied |-> FALSE]]
-TraceInit == CInit /\ l = 1 /\ dead = TRUE /\ nviol = 0 /\ seqres = Empty /\ lastseq = Empty /\ bmap = Empty
+TraceInit == CInit /\ l = 1 /\ dead = TRUE /\ nviol = 0 /\ lastseq = Empty /\ bmap = Empty
 
 Viol(e, tags) ==
   /\ PrintT(<<"VIOL", e.t, l, tags>>)
   /\ dead' = TRUE /\ nviol' = nviol + 1 /\ l' = l + 1
-  /\ UNCHANGED <<cvars, seqres, lastseq, bmap>>
+  /\ UNCHANGED <<cvars, lastseq, bmap>>
 
 \* ---- pool events: steps of Conc
 Known(e) == e.b \in DOMAIN bmap
@@ -53,31 +54,29 @@ PoolStep(e) ==
              THEN Viol(e, {"C13.pool.buffer_not_clean"})         \* PoolClean, bound to the logged length
            ELSE /\ GetBuf(w, IF Known(e) THEN bmap[e.b] ELSE nextBuf)
                 /\ bmap' = IF Known(e) THEN bmap ELSE (e.b :> nextBuf) @@ bmap
-                /\ UNCHANGED <<l, dead, nviol, seqres, lastseq>>
+                /\ UNCHANGED <<l, dead, nviol, lastseq>>
          ELSE IF gs[w].pc = "lookup" THEN Lookup(w) /\ UNCHANGED tvars
-         ELSE /\ gs[w].pc = "write" /\ Write(w) /\ l' = l + 1 /\ UNCHANGED <<dead, nviol, seqres, lastseq, bmap>>
+         ELSE /\ gs[w].pc = "write" /\ Write(w) /\ l' = l + 1 /\ UNCHANGED <<dead, nviol, lastseq, bmap>>
     [] e.op = "copy" ->
          IF gs[w].pc # "full" THEN Viol(e, {"C13.pool.use_after_release"})
          ELSE /\ (IF gs[w].copied THEN UNCHANGED cvars ELSE Copy(w))
-              /\ l' = l + 1 /\ UNCHANGED <<dead, nviol, seqres, lastseq, bmap>>
+              /\ l' = l + 1 /\ UNCHANGED <<dead, nviol, lastseq, bmap>>
     [] e.op = "put" ->
          IF ~(gs[w].pc = "full" /\ Known(e) /\ bmap[e.b] = gs[w].b) THEN Viol(e, {"C13.pool.double_release"})
          ELSE /\ (IF gs[w].copied THEN Put(w) ELSE Fail(w))
-              /\ l' = l + 1 /\ UNCHANGED <<dead, nviol, seqres, lastseq, bmap>>
+              /\ l' = l + 1 /\ UNCHANGED <<dead, nviol, lastseq, bmap>>
 
 \* ---- result events
 Bad(e) ==
-  CASE e.ev = "Seq" -> {}
-    [] e.ev = "Par" ->
-         (IF e.op \notin DOMAIN seqres THEN {"C13.driver.unknown_op"}
-          ELSE IF e.res # seqres[e.op] THEN {"C13.differs_from_sequential"} ELSE {})
+  CASE e.ev = "Par" ->
+         (IF e.res # e.seq THEN {"C13.differs_from_sequential"} ELSE {})
          \cup (IF e.g \in DOMAIN lastseq /\ e.i # lastseq[e.g] + 1 THEN {"C13.driver.order"} ELSE {})
     [] e.ev = "Race" -> {"C13.data_race"}
     [] e.ev = "End" -> (IF e.races # 0 THEN {"C13.data_race"} ELSE {})
                        \cup (IF e.crash THEN {"C13.process_died"} ELSE {})   \* fatal error: concurrent map access, ...
 
 Reset ==
-  /\ Trace[l].ev = "Start" /\ dead' = FALSE /\ seqres' = Empty /\ lastseq' = Empty /\ bmap' = Empty /\ UNCHANGED nviol
+  /\ Trace[l].ev = "Start" /\ dead' = FALSE /\ lastseq' = Empty /\ bmap' = Empty /\ UNCHANGED nviol
   /\ pool' = {} /\ buf' = [b \in {} |-> <<>>] /\ nextBuf' = 1 /\ table' = "ready"
   /\ gs' = [g \in G |-> [pc |-> "get", k |-> 1, b |-> 0, res |-> <<>>, blind |-> FALSE, copied |-> FALSE]]
   /\ l' = l + 1
@@ -88,15 +87,14 @@ Live ==
        /\ bad # {} => PrintT(<<"VIOL", e.t, l, bad>>)
        /\ dead' = (bad # {})
        /\ nviol' = nviol + (IF bad # {} THEN 1 ELSE 0)
-       /\ seqres' = IF e.ev = "Seq" THEN (e.op :> e.res) @@ seqres ELSE seqres
        /\ lastseq' = IF e.ev = "Par" THEN (e.g :> e.i) @@ lastseq ELSE lastseq
   /\ l' = l + 1 /\ UNCHANGED <<cvars, bmap>>
-Skip == Trace[l].ev # "Start" /\ dead /\ l' = l + 1 /\ UNCHANGED <<cvars, dead, nviol, seqres, lastseq, bmap>>
+Skip == Trace[l].ev # "Start" /\ dead /\ l' = l + 1 /\ UNCHANGED <<cvars, dead, nviol, lastseq, bmap>>
 
 TraceNext ==
   \/ /\ l <= Len(Trace) /\ (Reset \/ LivePool \/ Live \/ Skip)
   \/ /\ l = Len(Trace) + 1 /\ PrintT(<<"DONE", Len(Trace), nviol>>) /\ l' = l + 1
-     /\ UNCHANGED <<cvars, dead, nviol, seqres, lastseq, bmap>>
+     /\ UNCHANGED <<cvars, dead, nviol, lastseq, bmap>>
 TraceSpec == TraceInit /\ [][TraceNext]_<<cvars, tvars>>
 \* what TLC proves for Conc (MC_Conc*.cfg) is re-checked on the states the real run drives the model through
 TraceInv == dead \/ (HeldNotPooled /\ PoolClean)
